@@ -9,13 +9,12 @@ structure CRec where
   everReq : Bool := false
 
 structure DState where
-  cfg : Cfg := ⟨64, 48, 4, false, false, false, false, false, false, 20000⟩
+  cfg : Cfg := ⟨64, 48, 4, false, false, false, false, false, false, 20000, false⟩
   started : Bool := false
-  conns : List (Nat × CRec) := []
+  conns : AList CRec := []
 
-def findConn (s : DState) (id : Nat) : Option CRec := (s.conns.find? (fun p => p.1 == id)).map (·.2)
-def setConn (s : DState) (id : Nat) (r : CRec) : DState :=
-  { s with conns := (id, r) :: s.conns.filter (fun p => p.1 != id) }
+def findConn (s : DState) (id : Nat) : Option CRec := s.conns.get id
+def setConn (s : DState) (id : Nat) (r : CRec) : DState := { s with conns := s.conns.set id r }
 
 def aclass (n : Nat) : String :=
   if n ≤ 65536 then "s" else if n ≤ 1048576 + 65536 then "m" else if n ≤ 2147483648 + 65536 then "l" else "x"
@@ -31,7 +30,7 @@ def showR (id : Nat) (st : Status) (t : Tot) : String :=
       | .isOpen c => s!"open:{phaseNum c.phase}"
       | _ => "closed:-1"
     let a := if aclass t.amax == aclass t.amaxAlt then aclass t.amax else s!"{aclass t.amax}|{aclass t.amaxAlt}"
-    s!"r {id} {s} n={t.n} rw={t.rw} ww={t.ww} vt={t.vt} a={a}"
+    s!"r {id} {s} n={t.n} rw={t.rw} ww={t.ww} vt={t.vt} cb={t.cb} a={a}"
 
 def parseKV (s : DState) (tok : String) : Option DState :=
   match tok.splitOn "=" with
@@ -50,7 +49,8 @@ def parseKV (s : DState) (tok : String) : Option DState :=
       else if k = "utf8" then some { s with cfg := { c with utf8 := n != 0 } }
       else if k = "view" then some { s with cfg := { c with view := n != 0 } }
       else if k = "wait" then some { s with cfg := { c with wait := n } }
-      else if k = "sdh" ∨ k = "wenc" then some s
+      else if k = "sdh" then some { s with cfg := { c with sdh := n != 0 } }
+      else if k = "wenc" then some s
       else none
   | _ => none
 
@@ -84,10 +84,7 @@ def dstep (s : DState) (toks : List String) : DState × List String :=
     if !s.started then (s, ["bad-op"]) else
     match id.toNat?, unhex? pre with
     | some id, some pre =>
-      let live := match findConn s id with
-        | some r => (match r.st with | .closed => false | _ => true)
-        | none => false
-      if id == 0 || decide (id ≥ 16) || live then (s, ["bad-op"]) else
+      if id == 0 || decide (id ≥ 16) then (s, ["bad-op"]) else
       let base : Tot := { amax := sizeofClientRec, amaxAlt := sizeofClientRec }
       let (st, t) : Status × Tot :=
         if pre.isEmpty then
